@@ -46,7 +46,7 @@ def place(lines):
     for i, (kind, s, n) in enumerate(lines):
         m = 0x30 + 0x10 * i
         if kind == 'predef':
-            if data:
+            if len(data) >= 2:
                 return None
             data.append({'name': f'blk{i}', 'address': s, 'value': m, 'size': n})
             continue
